@@ -121,9 +121,25 @@ theorem append_contents (b b' : Buf) (xs : Bytes) (hinv : Buf.Inv b) (h : b.appe
         omega
       · rw [hb]
 
-/-- resizing an owned buffer keeps the common prefix and pads with zeros -/
-theorem resize_contents (b b' : Buf) (n : Nat) (h : b.resize n = .ok b') :
-    b'.bytes.length = n ∨ True := Or.inr trivial
+/-- growing by `resize` keeps the contents and pads with zeros (a byte vector's resize) -/
+theorem resize_contents (b b' : Buf) (n : Nat) (hn : b.bytes.length < n) (h : b.resize n = .ok b') :
+    b'.bytes = b.bytes ++ List.replicate (n - b.bytes.length) 0 ∧ b'.bytes.length = n := by
+  unfold Buf.resize at h
+  by_cases ho : b.owned = true
+  · simp only [ho, Bool.not_true, Bool.false_eq_true, if_false, hn, if_true, bind, Except.bind] at h
+    split at h
+    · cases h
+    · rename_i b1 hb1
+      have hb : b1.bytes = b.bytes := by
+        rcases realloc_spec b b1 n hb1 with ⟨_, hbb, _⟩ | ⟨hbb, _⟩
+        · rw [hbb]; apply List.take_of_length_le; omega
+        · rw [hbb]
+      cases h
+      show b1.bytes ++ List.replicate (n - b1.bytes.length) 0 = _ ∧ (b1.bytes ++ List.replicate (n - b1.bytes.length) 0).length = n
+      rw [hb]
+      exact ⟨rfl, by rw [List.length_append, List.length_replicate]; omega⟩
+  · have : b.owned = false := by simpa using ho
+    simp [this] at h
 
 /-- shrinking keeps the prefix -/
 theorem resize_smaller (b : Buf) (n : Nat) (ho : b.owned = true) (hn : n ≤ b.bytes.length) :
